@@ -14,10 +14,12 @@ import (
 	"math/rand"
 	"net"
 	"os"
+	"path/filepath"
 	"strconv"
 	"strings"
 	"sync"
 	"sync/atomic"
+	"syscall"
 	"time"
 )
 
@@ -84,9 +86,9 @@ type Resp struct {
 	CutAt     int
 	KeepAlive bool // keep the connection open after a complete response
 	// Pacing
-	Gap     time.Duration         // sleep between writes
-	Gate    func(k int, rec *Record) // called before body write k (k>=0); may block
-	StallCh <-chan struct{}       // stall faults wait on this (or until peer closes / MaxStall)
+	Gap      time.Duration            // sleep between writes
+	Gate     func(k int, rec *Record) // called before body write k (k>=0); may block
+	StallCh  <-chan struct{}          // stall faults wait on this (or until peer closes / MaxStall)
 	MaxStall time.Duration
 	// AfterHeaders is called after the header block was written.
 	AfterHeaders func(rec *Record)
@@ -110,9 +112,9 @@ type Backend struct {
 	closed  bool
 	wg      sync.WaitGroup
 
-	Accepted   atomic.Int64 // TCP connections accepted
-	InFlight   atomic.Int64 // requests being answered
-	KeepBodies bool         // keep full request bodies in records
+	Accepted   atomic.Int64       // TCP connections accepted
+	InFlight   atomic.Int64       // requests being answered
+	KeepBodies bool               // keep full request bodies in records
 	KeepIf     func(*Record) bool // keep the body of matching requests (decided after the header block)
 	// PreBody is consulted after the header block: reset=true makes the backend read readN raw
 	// body bytes and then reset the connection (a failure in the middle of the upload).
@@ -120,26 +122,61 @@ type Backend struct {
 }
 
 var portMu sync.Mutex
-var nextPort int
 
-func init() {
-	// outside the ephemeral range (32768+), so a closed listener's port cannot be taken
-	// by an outgoing connection while the backend "refuses".
-	nextPort = 15000 + (os.Getpid()*37+int(time.Now().UnixNano()/1000))%12000
+// Ports come from 15000..29999, outside the ephemeral range (32768+), so a closed
+// listener's port cannot be taken by an outgoing connection while the backend "refuses".
+// The range is cut into blocks and every harness process claims whole blocks with an
+// flock()ed file for its lifetime, so that harness processes running side by side (several
+// checks at once, background sweeps) can never take each other's momentarily closed ports.
+const (
+	portBase  = 15000
+	blockSize = 250
+	nBlocks   = 60
+)
+
+var (
+	blocks    []int // claimed block numbers
+	blockLock []*os.File
+	cursor    int // index into the concatenation of the claimed blocks
+)
+
+func claimBlock() bool {
+	start := (os.Getpid()*7 + int(time.Now().UnixNano()/1000)) % nBlocks
+	for i := 0; i < nBlocks; i++ {
+		k := (start + i) % nBlocks
+		f, err := os.OpenFile(filepath.Join(os.TempDir(), fmt.Sprintf("verif-ports-%02d.lock", k)), os.O_CREATE|os.O_RDWR, 0o666)
+		if err != nil {
+			continue
+		}
+		if syscall.Flock(int(f.Fd()), syscall.LOCK_EX|syscall.LOCK_NB) != nil {
+			f.Close()
+			continue
+		}
+		blockLock = append(blockLock, f)
+		blocks = append(blocks, k)
+		return true
+	}
+	return false
 }
 
 func listenFixed() (net.Listener, int, error) {
 	portMu.Lock()
 	defer portMu.Unlock()
-	for i := 0; i < 4000; i++ {
-		p := nextPort
-		nextPort++
-		if nextPort >= 30000 {
-			nextPort = 15000
+	for round := 0; round < 8; round++ {
+		if len(blocks) == 0 && !claimBlock() {
+			return nil, 0, errors.New("no free port block")
 		}
-		ln, err := net.Listen("tcp4", "127.0.0.1:"+strconv.Itoa(p))
-		if err == nil {
-			return ln, p, nil
+		total := len(blocks) * blockSize
+		for i := 0; i < total; i++ {
+			cursor = (cursor + 1) % total
+			p := portBase + blocks[cursor/blockSize]*blockSize + cursor%blockSize
+			ln, err := net.Listen("tcp4", "127.0.0.1:"+strconv.Itoa(p))
+			if err == nil {
+				return ln, p, nil
+			}
+		}
+		if !claimBlock() {
+			break
 		}
 	}
 	return nil, 0, errors.New("no free port")
@@ -704,8 +741,8 @@ type Std struct {
 	ModelsPath string
 
 	mu           sync.Mutex
-	healthStatus int      // 0 => 200
-	healthFault  string   // fault kind for health requests
+	healthStatus int    // 0 => 200
+	healthFault  string // fault kind for health requests
 	models       []string
 	modelsStatus int
 	modelsBody   []byte // overrides rendering when non-nil
@@ -798,7 +835,11 @@ func (s *Std) SetModelsRaw(status int, body []byte) {
 	s.modelsStatus, s.modelsBody = status, body
 	s.mu.Unlock()
 }
-func (s *Std) Models() []string { s.mu.Lock(); defer s.mu.Unlock(); return append([]string(nil), s.models...) }
+func (s *Std) Models() []string {
+	s.mu.Lock()
+	defer s.mu.Unlock()
+	return append([]string(nil), s.models...)
+}
 
 // Health2xxBetween reports whether a 2xx health answer was sent in (a, b).
 func (s *Std) Health2xxBetween(a, b int64) bool {
